@@ -6,6 +6,7 @@ import BigtoolsModel.WfIndex
 import BigtoolsModel.CheckedFile
 import BigtoolsModel.BigEndian
 import BigtoolsModel.NonLeafWitness
+import BigtoolsModel.AtomsGen
 /-! # C10 — any well-formed BBI file is read correctly, whoever wrote it
 
 Property theorems (statements copied from the lemma modules, proofs by those lemmas). -/
@@ -137,3 +138,14 @@ theorem C10_source_zoom_filter_is_zKeep (c qs qe : Nat) (r : ZRec) :
   ⟨gen_zoom_filter_0 c qs qe r, gen_zoom_filter_1 c qs qe r⟩
 
 end BBI
+
+namespace StepSections
+
+/-- **The code's own expansion of variable-step and fixed-step sections** (regenerated from `get_block_values`): item `i` of
+    a fixed-step section is `[start + i·step, start + i·step + span)`, a variable-step item is `[s, s + span)` — the
+    expansions the decode theorems are stated with. -/
+theorem C10_source_step_sections (start step span i s : Nat) :
+    fixedStart start step span i = start + i * step ∧ Gen.fixed_end (fixedStart start step span i) span step = start + i * step + span ∧
+    Gen.var_end s span step = s + span := gen_step_items start step span i s
+
+end StepSections
